@@ -77,6 +77,14 @@ def cases(ctx):
         for alphabet, ln in (("0123456789abcdef", 32), ("0123456789abcdef", 64), ("0123456789ABCDEF", 40), ("0123456789", 32), ("123456789ABCDEFGHJKLMNPQRSTUVWXYZabcdefghijkmnopqrstuvwxyz", 48), ("abcdefghijklmnopqrstuvwxyz ", 36)):
             tseed = "".join(r.choice(alphabet) for _ in range(ln)).encode()
             yield {"k": "chain", "seed": tseed.hex(), "steps": [{"derive": ridx(r)}], "neuter_at": 0, "impl": ln == 64, "text_seed": True}
+    # zero-padded components (same index, longer text): 11 and more digits
+    if ctx.shard % 4 == 3 or t:
+        for pad in (11, 12, 20, 40):
+            idxs = [ridx(r) % 2**31, 12 + 2**31, 7]
+            ps = "m/%s/%s'/%s" % (str(idxs[0]).zfill(pad), "12".zfill(pad), "7".zfill(pad))
+            yield {"k": "chain", "seed": gen.rbytes(r, 32).hex(), "steps": [{"path": ps, "idxs": idxs}], "neuter_at": 5, "impl": pad == 12, "zero_padded": True}
+            idxs2 = [5, 9]
+            yield {"k": "chain", "seed": gen.rbytes(r, 32).hex(), "steps": [{"path": "m/%s/%s" % ("5".zfill(pad), "9".zfill(pad)), "idxs": idxs2}], "neuter_at": 0, "impl": False, "zero_padded": True}
     # the longest well-formed path text: 255 components, every one a ten-digit hardened index (also through the *_impl twins)
     if ctx.shard % 8 == 0 or t:
         seed = gen.rbytes(r, 32)
@@ -192,6 +200,8 @@ def judge(ctx, case):
             ctx.hit("longest_path_text")
         if case.get("twin"):
             ctx.hit("neighbour_sequence")
+        if case.get("zero_padded"):
+            ctx.hit("zero_padded_path_component")
         if case.get("leadzero"):
             ctx.hit("child_with_leading_zero_bytes")
         if case.get("text_seed"):
